@@ -847,6 +847,25 @@ where
         freq: &FrequencySketch,
         counters: &mut EvictionCounters,
     ) {
+        // Apply this op only if the hash map still holds this very entry. Otherwise
+        // the key has been updated (another write op carries the current entry and
+        // may already have been applied, as concurrent inserts can queue their ops
+        // in the opposite order of their map updates), invalidated or evicted since
+        // this op was queued. Applying it anyway would overwrite the accounted
+        // weight of the newer entry, or create deque nodes and counts for an entry
+        // that is not in the map. Use the map's own key for the deque nodes.
+        let current_key = self.cache.get(&kh.key).and_then(|current| {
+            if TrioArc::ptr_eq(&*current, &entry) {
+                Some(Arc::clone(current.key()))
+            } else {
+                None
+            }
+        });
+        let kh = match current_key {
+            Some(key) => KeyHash::new(key, kh.hash),
+            None => return,
+        };
+
         entry.set_dirty(false);
 
         if entry.is_admitted() {
